@@ -35,6 +35,7 @@ type FD struct {
 	Policy   string `json:"policy,omitempty"`   // replace | append | prepend | merge
 	Validate string `json:"validate,omitempty"` // validate tag
 	Alt      string `json:"alt,omitempty"`      // complete value of a second tag set `alt:"..."` (used with ucfg.StructTag("alt"))
+	Embedded bool   `json:"embedded,omitempty"` // embedded (anonymous) field; only for fields of struct kind
 	T        *TD    `json:"t"`
 }
 
@@ -158,6 +159,9 @@ func (td *TD) Type() reflect.Type {
 			sf := reflect.StructField{Name: f.Name, Type: f.T.Type(), Tag: reflect.StructTag(f.TagString())}
 			if f.Unexp {
 				sf.PkgPath = harnessPkgPath
+			}
+			if f.Embedded && !f.Unexp && (f.T.Kind == "struct" || f.T.Kind == "ptr" && f.T.Elem.Kind == "struct") {
+				sf.Anonymous = true
 			}
 			fs = append(fs, sf)
 		}
@@ -440,6 +444,10 @@ func GenStructTD(t *rapid.T, cfg *TDCfg, depth int) *TD {
 		default:
 			f.T = GenTD(t, cfg, depth-1)
 		}
+		if !f.Unexp && (f.T.Kind == "struct" || f.T.Kind == "ptr" && f.T.Elem.Kind == "struct") && rapid.IntRange(0, 2).Draw(t, "embed") == 0 {
+			// an embedded struct: with a name of its own, named after the field (no tag name) or inlined
+			f.Embedded = true
+		}
 		td.Fields = append(td.Fields, f)
 	}
 	if cfg.Dotted && depth > 0 && rapid.IntRange(0, 3).Draw(t, "overlap") == 0 {
@@ -512,6 +520,16 @@ func GenTV(t *rapid.T, cfg *TDCfg, td *TD, inColl bool) *TV {
 		}
 		return &TV{I: rapid.SampledFrom(pool).Draw(t, "i")}
 	case "dur":
+		if rapid.Bool().Draw(t, "dcomposed") {
+			// whole seconds of any magnitude plus or minus a few nanoseconds
+			secs := rapid.SampledFrom([]int64{0, 1, 59, 3600, 86400, 1 << 24, 1<<24 + 1, 365 * 86400, 1 << 30, 1 << 33, 9223372035}).Draw(t, "dsecs")
+			ns := rapid.SampledFrom([]int64{0, 1, -1, 500, 999999999, 1000, 1000000}).Draw(t, "dns")
+			d := secs*int64(time.Second) + ns
+			if rapid.Bool().Draw(t, "dneg") {
+				d = -d
+			}
+			return &TV{I: d}
+		}
 		return &TV{I: rapid.SampledFrom([]int64{0, 1, -1, math.MinInt64, math.MaxInt64, int64(90 * time.Minute), 1500000000, -1500000001, int64(time.Second)}).Draw(t, "d")}
 	case "uint", "uint8", "uint16", "uint32", "uint64":
 		bits := td.Type().Bits()
